@@ -28,6 +28,8 @@ func focusWeights(focus string) weights {
 		w["dup"], w["replay"], w["corrupt"], w["pump"] = 12, 10, 8, 10
 	case "C06":
 		w["adv"], w["advmsg"], w["gov"], w["corrupt"], w["tss"], w["xrestart"], w["forge"] = 14, 6, 8, 6, 14, 3, 5
+	case "C17":
+		w["send"], w["pump"] = 30, 12
 	case "C13":
 		w["export"], w["xrestart"] = 6, 4
 	case "C14":
@@ -114,7 +116,11 @@ func (Scenario) Generate(rng *rand.Rand, focus, tier string) kernel.Plan {
 		}
 		switch k {
 		case "send":
-			add("send", rng.Int63n(nc), rng.Int63n(4), invalidDst(), rng.Int63n(16), rng.Int63n(7), rng.Int63n(7), rng.Int63n(4)*rng.Int63n(2), rng.Int63n(6)+7*rng.Int63n(6))
+			call := rng.Int63n(7)
+			if focus == "C17" && kernel.Chance(rng, 0.5) {
+				call = 3 // call data that drives the staking system contract and fails natively
+			}
+			add("send", rng.Int63n(nc), rng.Int63n(4), invalidDst(), rng.Int63n(16), rng.Int63n(7), call, rng.Int63n(4)*rng.Int63n(2), rng.Int63n(6)+7*rng.Int63n(6))
 		case "xrestart":
 			add("xrestart", rng.Int63n(nc))
 		case "forge":
